@@ -536,4 +536,134 @@ theorem methodCountY_eq (D : Decls) (m : String) : ∀ (fuel d t : Nat), d < fue
       rw [hs]
       cases getMethod (methsOf D t) m <;> simp [countAt, MHit.depth]
 
+/-! ### `fieldCount` counts the fields of the enumeration at one depth -/
+
+theorem FHit_depth_push (i : Nat) (b : FHit) (hb : b.path ≠ []) : (FHit.push i b).depth = b.depth + 1 := by
+  cases hp : b.path with
+  | nil => exact absurd hp hb
+  | cons a as => simp [FHit.depth, FHit.push, hp]
+
+theorem countAt_allVia_zeroF (pred : Field → Bool) (g : Nat → List FHit) (hg : ∀ j, ∀ b ∈ g j, b.path ≠ []) :
+    ∀ (fs : List Field) (i : Nat), countAt 0 ((allVia pred g FHit.push fs i).map FHit.depth) = 0 := by
+  intro fs i
+  apply countAt_zero_of_ne
+  intro e he
+  obtain ⟨h, hh, rfl⟩ := List.mem_map.mp he
+  obtain ⟨f, _, k, b, _, hb, rfl⟩ := allVia_mem _ _ _ _ _ _ hh
+  rw [FHit_depth_push k b (hg _ b hb)]
+  omega
+
+theorem countAt_succ_pushF (d i : Nat) : ∀ (l : List FHit), (∀ b ∈ l, b.path ≠ []) →
+    countAt (d + 1) ((l.map (FHit.push i)).map FHit.depth) = countAt d (l.map FHit.depth) := by
+  intro l
+  induction l with
+  | nil => intro _; rfl
+  | cons a l ih =>
+    intro hne
+    have hd : (FHit.push i a).depth = a.depth + 1 := FHit_depth_push i a (hne a (by simp))
+    rw [List.map_cons, List.map_cons, List.map_cons]
+    have e1 : ∀ (x : Nat) (r : List Nat), countAt (d + 1) (x :: r) = (if x = d + 1 then 1 else 0) + countAt (d + 1) r := by
+      intro x r; unfold countAt; by_cases h : x = d + 1 <;> simp [h] <;> omega
+    have e2 : ∀ (x : Nat) (r : List Nat), countAt d (x :: r) = (if x = d then 1 else 0) + countAt d r := by
+      intro x r; unfold countAt; by_cases h : x = d <;> simp [h] <;> omega
+    rw [e1, e2, ih (fun b hb => hne b (by simp [hb])), hd]
+    by_cases h : a.depth = d
+    · simp [h]
+    · simp [h]
+
+theorem countAt_succ_allViaF (pred : Field → Bool) (g : Nat → List FHit) (hg : ∀ j, ∀ b ∈ g j, b.path ≠ []) (d : Nat) :
+    ∀ (fs : List Field) (i : Nat),
+      countAt (d + 1) ((allVia pred g FHit.push fs i).map FHit.depth) =
+        (fs.map (fun f => if pred f then countAt d ((g f.typ).map FHit.depth) else 0)).sum := by
+  intro fs
+  induction fs with
+  | nil => intro i; rfl
+  | cons f fs ih =>
+    intro i
+    unfold allVia
+    rw [List.map_append, countAt_append, ih, List.map_cons, List.sum_cons]
+    congr 1
+    by_cases hp : pred f = true
+    · simp only [hp, if_true]; exact countAt_succ_pushF d i _ (hg f.typ)
+    · simp only [hp]; rfl
+
+/-- **`fieldCount(name, d)` is the number of fields of that name at depth `d`** of the enumeration -/
+theorem fieldCountY_eq (D : Decls) (x : String) : ∀ (fuel d t : Nat), d < fuel →
+    fieldCountY D d t x = countAt d ((foccF D fuel t x).map FHit.depth) := by
+  intro fuel
+  induction fuel with
+  | zero => intro d t h; omega
+  | succ n ih =>
+    intro d t hd
+    unfold foccF
+    rw [List.map_append, countAt_append]
+    cases d with
+    | zero =>
+      rw [countAt_allVia_zeroF _ _ (fun j b hb => foccF_path_ne D n j x b hb)]
+      unfold fieldCountY
+      cases hg : fieldIndex (fieldsOf D t) x 0 with
+      | none => rfl
+      | some p => obtain ⟨i, f⟩ := p; simp [countAt, FHit.depth]
+    | succ d' =>
+      rw [countAt_succ_allViaF _ _ (fun j b hb => foccF_path_ne D n j x b hb)]
+      unfold fieldCountY
+      have hs := sum_map_congr (fun f => if f.isEmb then fieldCountY D d' f.typ x else 0)
+        (fun f => if f.isEmb then countAt d' ((foccF D n f.typ x).map FHit.depth) else 0) (fieldsOf D t)
+        (by
+          intro f _
+          by_cases hp : f.isEmb = true
+          · simp only [hp, if_true]; exact ih d' f.typ (by omega)
+          · simp only [hp]; rfl)
+      rw [hs]
+      cases hg : fieldIndex (fieldsOf D t) x 0 with
+      | none => simp [countAt]
+      | some p => obtain ⟨i, f⟩ := p; simp [countAt, FHit.depth]
+
+theorem foccF_depth_lt (D : Decls) (x : String) : ∀ (fuel t : Nat) (h : FHit), h ∈ foccF D fuel t x → h.depth < fuel := by
+  intro fuel
+  induction fuel with
+  | zero => intro t h hm; simp [foccF] at hm
+  | succ n ih =>
+    intro t h hm
+    unfold foccF at hm
+    rw [List.mem_append] at hm
+    cases hm with
+    | inl h1 =>
+      cases hg : fieldIndex (fieldsOf D t) x 0 with
+      | none => simp [hg] at h1
+      | some p => obtain ⟨i, f⟩ := p; simp [hg] at h1; subst h1; simp [FHit.depth]
+    | inr h2 =>
+      obtain ⟨f, _, k, b, _, hb, rfl⟩ := allVia_mem _ _ _ _ _ _ h2
+      have := ih f.typ b hb
+      rw [FHit_depth_push k b (foccF_path_ne D n f.typ x b hb)]
+      omega
+
+/-- what the Go rule selects, when it selects something, is a candidate that is minimal and the only
+    one at its depth -/
+theorem pick_unique (os : List (Nat × Sel)) (s : Sel) (h : pickShallowest os = s)
+    (h1 : s ≠ .undefined) (h2 : s ≠ .ambiguous) :
+    ∃ o ∈ os, o.2 = s ∧ (∀ x ∈ os, o.1 ≤ x.1) ∧ (∀ x ∈ os, x.1 = o.1 → x = o) := by
+  unfold pickShallowest at h
+  cases hm : minDepth os with
+  | none => simp [hm] at h; exact absurd h.symm h1
+  | some d =>
+    simp only [hm] at h
+    obtain ⟨_, hall⟩ := minDepth_spec _ _ hm
+    cases hf : os.filter (fun o => o.1 == d) with
+    | nil => simp [hf] at h; exact absurd h.symm h2
+    | cons a as =>
+      cases as with
+      | cons b bs => simp [hf] at h; exact absurd h.symm h2
+      | nil =>
+        simp [hf] at h
+        have ha : a ∈ os.filter (fun o => o.1 == d) := by simp [hf]
+        obtain ⟨haos, had⟩ := List.mem_filter.mp ha
+        have had' : a.1 = d := by simpa using had
+        refine ⟨a, haos, h, ?_, ?_⟩
+        · intro x hx; have := hall x hx; omega
+        · intro x hx hxd
+          have : x ∈ os.filter (fun o => o.1 == d) := List.mem_filter.mpr ⟨hx, by simp [hxd, had']⟩
+          rw [hf] at this
+          simpa using this
+
 end YaegiVerif.Proofs.C05
